@@ -30,11 +30,7 @@ inductive Res (α : Type) where
   | ok (a : α)
   | err (e : CoseErr)
   | panic (s : PanicSite)
-  deriving Repr, Inhabited
-
-instance [DecidableEq α] : DecidableEq (Res α) := by
-  intro a b
-  cases a <;> cases b <;> simp <;> exact inferInstance
+  deriving Repr, Inhabited, DecidableEq
 
 namespace Res
 
